@@ -202,6 +202,23 @@ type limitShape struct {
 	surf string
 }
 
+// eexecShape returns a program that fills the dictionary stack to depth n and
+// then runs body inside an eexec section.
+func eexecShape(n int, body string, binary bool) string {
+	head := strings.Repeat("userdict begin ", n-2) + "\n"
+	return string(gen.WrapEexec(sim.ReplayTape([]uint32{7, 7, 7, 7}), []byte(head), []byte(body+"\n"), nil, binary))
+}
+
+func init() {
+	for _, n := range []int{19, 20} {
+		for _, bin := range []bool{false, true} {
+			limitShapes = append(limitShapes,
+				limitShape{fmt.Sprintf("begin-loop-inside-eexec-at-depth-%d-binary-%t", n, bin), eexecShape(n, "{ userdict begin } loop", bin), []string{"dictstackoverflow"}, false, ""},
+				limitShape{fmt.Sprintf("begin-recursion-inside-eexec-at-depth-%d-binary-%t", n, bin), eexecShape(n, "/f { 1 dict begin f end } def f", bin), []string{"dictstackoverflow", "execstackoverflow"}, false, ""})
+		}
+	}
+}
+
 var limitShapes = []limitShape{
 	{"loop-push-int", "{ 1 } loop", []string{"stackoverflow"}, false, ""},
 	{"loop-push-dup", "0 { dup } loop", []string{"stackoverflow"}, false, ""},
@@ -349,6 +366,11 @@ func C11() *sim.Check {
 		"0 1 20 { pop } bind for 5 { 1 } bind repeat pop pop pop pop pop [ 1 2 3 ] { pop } bind forall { exit } bind loop 7",
 		"0 1 9 { dup } bind for count { pop } bind repeat (abc) { pop } bind forall",
 		"errordict /typecheck { pop pop 1 1 add } put 1 (a) add 2 (b) add { 1 (c) add pop } bind exec",
+		// names bound to executable names (obtainable only by taking a token out
+		// of a procedure body): chains and a cycle
+		"/a 7 def /b { a } 0 get def /c { b } 0 get def c c add b",
+		"/x { x } 0 get def 1 2 add x 3",
+		"/p { 1 } def /q { p } 0 get def /r { q } 0 get def 3 { r pop } repeat r",
 	}
 	fixedB := &sim.Batch{Name: "dispatch", Quick: len(fixed), Thorough: len(fixed), Enumerated: true}
 	fixedB.Run = func(c *sim.RunCtx) *sim.Outcome {
